@@ -68,7 +68,7 @@ CheckTls(c) ==
       ops == FoldSeq(LAMBDA row, acc : acc \o row, <<>>, c.x) \o c.y          \* x (component-major) then y: the order of the code's operands
       dvals == Values(ops)
   IN
-  /\ Verdict(id, "(p, xi) is a stationary point of the documented chi^2 with the x-residual term", RLe(RAbs(dec), "1/10000000"))
+  /\ Verdict(id, "(p, xi) is a stationary point of the documented chi^2 with the x-residual term", RLe(RAbs(dec), RMul("1/10000000", RAdd("1", c.res.chisquare))))   \* ODRPACK stops at a relative change of chi^2 of 1.5e-8
   /\ \A a \in 1..n :
        CheckReal(id \o ".p" \o StrFromInt(a), [c EXCEPT !.mode = "fit"], LinearIn([j \in DOMAIN sens[a] |-> Round(sens[a][j])], p[a], dvals),
                  ops, [k \in DOMAIN ops |-> k], ObsRes(c.res.p[a]), TRUE)
